@@ -126,7 +126,9 @@ pub fn merge_child_json(rep: &mut Report, leg: &str, j: &J) {
     let evals = j.get("evaluations").and_then(|x| x.as_i64()).unwrap_or(0) as u64;
     rep.add(&format!("leg_{}_evaluations", leg), evals);
     rep.evaluations += evals;
-    rep.add(&format!("leg_{}_distinct", leg), j.get("distinct").and_then(|x| x.as_i64()).unwrap_or(0) as u64);
+    let d = j.get("distinct").and_then(|x| x.as_i64()).unwrap_or(0) as u64;
+    rep.add(&format!("leg_{}_distinct", leg), d);
+    rep.distinct_external += d;
     if let Some(J::Obj(cs)) = j.get("counters") {
         for (k, v) in cs {
             rep.add(&format!("leg_{}:{}", leg, k), v.as_i64().unwrap_or(0) as u64);
